@@ -41,6 +41,25 @@ theorem acked_survive (rounds : List Round) (hok : FreshHist [] rounds)
   · intro e hx; exact (he e).mpr (mem_allEdges hin e hx)
   · intro q hx; exact (hp q).mpr (mem_allProps hin q hx)
 
+/-- **C01 (`acked_survive`, from files that do not exist yet)**: the same when the history starts
+    with the creation of the database and the process may die at any step of the creation. -/
+theorem acked_survive_creation (rounds : List Round) (hok : FreshHist [] rounds)
+    (hc : CondHist cfgOfSource ({} : FS) rounds) :
+    ∃ m fs', recover cfgOfSource (afterRounds cfgOfSource ({} : FS) rounds) = .ok (m, fs') ∧
+      ∀ r ∈ rounds, ∀ tx ∈ r.obs.acked,
+        (∀ x ∈ tx.nodes, x ∈ (content m fs'.pv).nodes) ∧ (∀ e ∈ tx.edges, e ∈ (content m fs'.pv).edges) ∧
+        (∀ q ∈ tx.props, q ∈ (content m fs'.pv).props) := by
+  obtain ⟨T, m, fs', hadm, hrec, hsame⟩ := C02.crash_prefix_creation rounds hok hc
+  refine ⟨m, fs', hrec, ?_⟩
+  intro r hr tx htx
+  have hin : tx ∈ T := admissible_acked hadm r.obs (List.mem_map.mpr ⟨r, hr, rfl⟩) tx htx
+  rw [spec_run_eq] at hsame
+  obtain ⟨hn, he, hp⟩ := hsame
+  refine ⟨?_, ?_, ?_⟩
+  · intro x hx; rw [hn]; exact mem_allNodes hin x hx
+  · intro e hx; exact (he e).mpr (mem_allEdges hin e hx)
+  · intro q hx; exact (hp q).mpr (mem_allProps hin q hx)
+
 /-- **C01 (a returned commit is durable at once)**: as soon as the log sync of a commit has been
     performed — in particular after `commit()` has returned — every crash image contains the
     transaction (restates the second half of `C02.commit_every_step`). -/
